@@ -86,6 +86,20 @@ def pick_extra(G, names, want_start=True, want_end=True):
     return ([best[1]] if best[1] is not None else []), ([best[2]] if best[2] is not None else [])
 
 
+_CACHE = {}
+
+
+def _memo(fn):
+    def wrapped(G, starts=(), ends=(), cyclic=False, *a):
+        key = (fn.__name__, tuple(sorted(G.edges())), tuple(starts), tuple(ends), cyclic) + a
+        if key not in _CACHE:
+            if len(_CACHE) > 20000:
+                _CACHE.clear()
+            _CACHE[key] = fn(G, starts, ends, cyclic, *a)
+        return _CACHE[key]
+    return wrapped
+
+
 def routes_of(G, starts=(), ends=(), cyclic=False, cap=2, maxlen=7, limit=10):
     """explicit start-to-end node sequences: simple paths (DAG) or walks using each edge at most `cap` times (cyclic)"""
     S = [v for v in G if G.in_degree(v) == 0 or v in starts]
@@ -133,6 +147,7 @@ def superpose(G, routes, weights):
 WSETS = ((1,), (2, 1), (3, 2), (1, 2, 3), (2, 2, 1))
 
 
+@_memo
 def conserving_values(G, starts=(), ends=(), cyclic=False, count=2):
     """up to `count` value assignments (edge values, node values) that are superpositions of <=3 routes; all-positive ones first"""
     R = routes_of(G, starts, ends, cyclic)
@@ -199,7 +214,7 @@ def variants(model, tier):
         V += [dict(tag="guessed weights", opts={"optimize_with_greedy": False, "optimize_with_guessed_weights": True, "use_min_gen_set_lowerbound": True}),
               dict(tag="guessed weights+node", opts={"optimize_with_greedy": False, "optimize_with_guessed_weights": True, "use_min_gen_set_lowerbound": True}, origin="node")]
     if model in ("kFlowDecomp", "kLeastAbsErrors", "kMinPathError"):
-        V += [dict(tag="weights superset", superset=True)]
+        V += [dict(tag="weights superset", superset=True, opts=({"optimize_with_greedy": False} if model == "kFlowDecomp" else {}))]
     if not cyc and model not in FD:
         V += [dict(tag="no safety", opts={"optimize_with_safe_paths": False}),
               dict(tag="safe sequences", opts={"optimize_with_safe_paths": False, "optimize_with_safe_sequences": True}),
@@ -231,6 +246,7 @@ def make_case(model, G, names, var, k, wt, salt, npo=None, fscale=None, count=2)
             ef, nf = arbitrary_values(G, salt)
         else:
             ef, nf = pool[salt % len(pool)]
+            ef, nf = dict(ef), dict(nf)      # the pool is memoised: never mutate it
     if fscale is None:
         fscale = 0.5 if salt % 2 else 1
     if wt == "float" and fscale != 1:
@@ -279,6 +295,7 @@ def make_case(model, G, names, var, k, wt, salt, npo=None, fscale=None, count=2)
     return case
 
 
+@_memo
 def cover_number(G, starts=(), ends=(), cyclic=False):
     """fewest explicit routes (from the capped list) covering every edge; only used to pick interesting values of k"""
     R = [set(zip(r, r[1:])) for r in routes_of(G, starts, ends, cyclic, limit=40)]
@@ -290,12 +307,19 @@ def cover_number(G, starts=(), ends=(), cyclic=False):
     return 4
 
 
-def pick_k(G, var, names, cyclic, salt, tier):
+def wk_combos(model, G, var, names, cyclic, mix, tier):
+    """(weight type, k) pairs tried for one (model, topology, variant)"""
+    if model in DAG_MIN + CYC_MIN:
+        return [("int", None)] if model in COVERS else ([(("int", "float")[mix % 2], None)] if tier == "quick" else [("int", None), ("float", None)])
     starts, ends = pick_extra(G, names, bool(var.get("starts")), bool(var.get("ends")))
     w = cover_number(G, starts, ends, cyclic)
     if tier == "quick":
-        return (min(4, (w, w + 1, w, max(1, w - 1), w + 2)[salt % 5]),)
-    return tuple(sorted(set((1, max(1, w - 1), w, min(4, w + 1)))))
+        k = min(4, (w, w + 1, w, max(1, w - 1), w + 2)[(mix >> 3) % 5])
+        return [("int" if model in COVERS else ("int", "float")[mix % 2], k)]
+    out = [("int", w), ("float", w), ("int", min(4, w + 1)), ("float", max(1, w - 1))] + ([("int", 1)] if w > 2 else [])
+    if model in COVERS:
+        out = [("int", k) for k in sorted(set(k for _, k in out))]
+    return sorted(set(out), key=lambda x: (x[1], x[0]))
 
 
 def _constraint_edges(G, salt, cyc):
@@ -451,13 +475,11 @@ def cases(tier):
                     continue
                 seen.add(var["tag"])
                 salt = ti + vi
-                wts = ("int",) if model in COVERS else (("int", "float")[salt % 2],) if q else ("int", "float")
-                ks = (None,) if model in DAG_MIN + CYC_MIN else pick_k(G, var, names, kind == "cyc", ((ti * 2654435761 + vi * 40503 + mi * 977) >> 7), tier)
-                for wt in wts:
-                    for k in ks:
-                        c = make_case(model, G, names, var, k, wt, salt)
-                        if c is not None:
-                            yield c
+                mix = (ti * 2654435761 + vi * 40503 + mi * 977) >> 7
+                for wt, k in wk_combos(model, G, var, names, kind == "cyc", mix, tier):
+                    c = make_case(model, G, names, var, k, wt, salt)
+                    if c is not None:
+                        yield c
             if model in CYC_K and model != "kFlowDecompCycles" and ti % 4 == 0:      # k=None is documented for these
                 c = make_case(model, G, names, V[ti % 3], None, "int", ti)
                 if c is not None:
